@@ -16,6 +16,9 @@
 //	              when the executable itself disappears (sandbox removed)
 //	childPidFile  file the descendant's pid is written to (atomically) before anything else
 //	marker        file to which the command name is appended (execution witness)
+//	blankStdout/stdoutTail   after the stdout text: that many blanks, then the tail text
+//	noStdin       the request on stdin is never read
+//	childHoldsStdin  the descendant inherits stdin too (and does not read it either)
 package main
 
 import (
@@ -46,6 +49,10 @@ type behaviour struct {
 	ChildDetached bool   `json:"childDetached"` // the descendant leaves the plugin's session and process group (setsid)
 	LingerMs      int    `json:"lingerMs"`      // after writing the complete output: stay alive that long before exiting
 	Marker        string `json:"marker"`
+	BlankStdout   int64  `json:"blankStdout"`     // after stdout: that many blanks, then stdoutTail (in one stream)
+	StdoutTail    string `json:"stdoutTail"`
+	NoStdin       bool   `json:"noStdin"`         // the request is never read
+	ChildStdin    bool   `json:"childHoldsStdin"` // the descendant inherits stdin as well
 }
 
 func pad(w io.Writer, s string, n int64, key string) {
@@ -125,7 +132,9 @@ func main() {
 	if !ok {
 		b = all["*"]
 	}
-	io.Copy(io.Discard, os.Stdin)
+	if !b.NoStdin {
+		io.Copy(io.Discard, os.Stdin)
+	}
 	if b.Marker != "" {
 		f, _ := os.OpenFile(b.Marker, os.O_APPEND|os.O_CREATE|os.O_WRONLY, 0644)
 		f.WriteString(cmd + "\t" + strconv.FormatInt(time.Now().UnixNano(), 10) + "\n") // command and start time
@@ -134,6 +143,9 @@ func main() {
 	if b.ChildSleep > 0 {
 		c := exec.Command(exe, "__sleep", (time.Duration(b.ChildSleep) * time.Millisecond).String(), exe)
 		c.Stdout, c.Stderr = os.Stdout, os.Stderr
+		if b.ChildStdin {
+			c.Stdin = os.Stdin
+		}
 		if b.ChildDetached {
 			c.SysProcAttr = &syscall.SysProcAttr{Setsid: true}
 		}
@@ -162,7 +174,25 @@ func main() {
 			}
 		}
 	}
-	pad(os.Stdout, b.Stdout, b.PadStdout, b.PadStdoutKey)
+	if b.BlankStdout > 0 || b.StdoutTail != "" {
+		bw := bufio.NewWriterSize(os.Stdout, 1<<20)
+		bw.WriteString(b.Stdout)
+		chunk := []byte(strings.Repeat(" ", 1<<16))
+		for n := b.BlankStdout; n > 0; {
+			k := n
+			if k > int64(len(chunk)) {
+				k = int64(len(chunk))
+			}
+			if _, err := bw.Write(chunk[:k]); err != nil {
+				break
+			}
+			n -= k
+		}
+		bw.WriteString(b.StdoutTail)
+		bw.Flush()
+	} else {
+		pad(os.Stdout, b.Stdout, b.PadStdout, b.PadStdoutKey)
+	}
 	pad(os.Stderr, b.Stderr, b.PadStderr, b.PadStderrKey)
 	if b.LingerMs > 0 {
 		os.Stdout.Sync()
